@@ -10,7 +10,7 @@ from ..effects import Effects, MUTATORS
 from ..pyfacts import dotted, calls_in, guards_at, Guard, walk_guarded
 
 META = {
-    "explanation": "Effect analysis over the resolved call graph of the whole package, for every schedule and history at once: no function reachable from the public API writes module- or class-level state (S1); no module/class-level binding holds a worker object, no memoising decorator (S2); every public entry point uses worker objects constructed inside its own call (in its body or by a module-level factory that returns a fresh instance) (S3); per-object attributes written outside __init__ are (re)written before they are read on every path of every public method - must-define-before-use over the structured AST, through self calls - with memo tables accepted when they are empty at construction, accessed by key only and every stored value is determined by its key (S4); the protected arguments of loads/load/open, dumps/dump/save, validate and find* have no mutation site on any call path except under the documented options separate_complex_types / add_comments (S5); no auto-vivifying subscript read of a user dictionary on the read-only paths - the membership test may stand in the function or dominate every call of a private helper (S6).",
+    "explanation": "Effect analysis over the resolved call graph of the whole package, for every schedule and history at once: no function reachable from the public API writes module- or class-level state (S1); no module/class-level binding holds a worker object, no memoising decorator (S2); every public entry point uses worker objects constructed inside its own call (in its body or by a module-level factory that returns a fresh instance) (S3); per-object attributes written outside __init__ are (re)written before they are read on every path of every public method - must-define-before-use over the structured AST, through self calls - with memo tables accepted when they are empty at construction (or created lazily behind an `is None` test of a class-level None), accessed by key only and every stored value is determined by its key - each parameter the value depends on is a key component bound exactly once (S4); the protected arguments of loads/load/open, dumps/dump/save, validate and find* have no mutation site on any call path except under the documented options separate_complex_types / add_comments , calls through a class-level table of functions followed to every function the table holds (S5); no auto-vivifying subscript read of a user dictionary on the read-only paths - the membership test may stand in the function or dominate every call of a private helper (S6).",
     "level_text": "A whole-program may-mutate / may-write analysis with alias tracking through assignments, loops, part-of methods and callee summaries (fixed point). Absence of a site is a proof over all inputs, interleavings and call histories that the code cannot perform that effect, modulo the trusted externals listed in the evidence. This is the level the property needs: it quantifies over schedules and histories, which no test can enumerate, while the effect is visible in the shape of the code.",
     "level_note": "Trusted: thread-safety and purity of lark, jsonschema, jsonref, re, logging, json, copy; Python semantics of the mutator-method table. Alias analysis is flow-insensitive (may over-approximate); unknown external calls receiving user data are listed in evidence and treated as violations unless tabled.",
     "technique": "interprocedural effect / alias analysis with guard (dominance) facts; must-define-before-use path analysis on the AST",
